@@ -325,20 +325,31 @@ Definition no_sep (s : str) : bool := negb (mem_chr 44 s || mem_chr 59 s || mem_
 Definition text_plain (s : str) : bool :=
   str_eqb (escape_char s) s && str_eqb (unescape_char s) s && no_sep s.
 
-(* the value is one the part's class accepts and that survives the textual framing *)
-Definition val_ok (t : vtype) (v : rv) : bool :=
-  match t, v with
-  | TInt, RInt _ => true
-  | TMonth, RInt z => (0 <=? z)%Z                  (* "-5" is written but not read back: outside RFC 5545 *)
-  | TMonth, RMonth m _ => (0 <=? m)%Z
-  | TMonth, RStr s => month_text_ok s
-  | TWeekday, RStr s => is_ok (vweekday s) && no_sep (upper s)
-  | TFreq, RStr s => is_ok (vfrequency s)
-  | TSkip, RStr s => is_ok (vskip s)
-  | TText, RStr s => text_plain s
-  | TUntil, RDate y m d => valid_date y m d
-  | TUntil, RDateTime y m d h mi s _ => valid_date y m d && valid_time h mi s
+Definition rv_eqb (a b : rv) : bool :=
+  match a, b with
+  | RInt x, RInt y => (x =? y)%Z
+  | RMonth x l, RMonth y l' => (x =? y)%Z && Bool.eqb l l'
+  | RStr x, RStr y => str_eqb x y
+  | RDate y1 m1 d1, RDate y2 m2 d2 => (y1 =? y2) && (m1 =? m2) && (d1 =? d2)
+  | RDateTime y1 m1 d1 h1 i1 s1 u1, RDateTime y2 m2 d2 h2 i2 s2 u2 =>
+      (y1 =? y2) && (m1 =? m2) && (d1 =? d2) && (h1 =? h2) && (i1 =? i2) && (s1 =? s2) && Bool.eqb u1 u2
   | _, _ => false
+  end.
+
+(* the value's own codec round-trips: the value class accepts it, its text is free of the framing
+   characters, decoding the text gives the canonical value, and that encodes to the same text.
+   This is a decidable condition on one value; Proofs/RecurProofs.v proves it for EVERY integer,
+   every non-negative month (leap or not), every frequency name in any letter case, every SKIP
+   value and every plain text, and by finite table for every RFC weekdaynum; for UNTIL values and
+   mixed-case weekdays it is evaluated (the harness checks that every generated in-domain rule
+   satisfies it). *)
+Definition val_ok (t : vtype) (v : rv) : bool :=
+  match enc_val t v with
+  | Ok s =>
+      no_sep s
+      && match dec_val t s with Ok v' => rv_eqb v' (canon_val t v) | _ => false end
+      && match enc_val t (canon_val t v) with Ok s' => str_eqb s' s | _ => false end
+  | _ => false
   end.
 
 Definition part_ok (kv : str * rvals) : bool :=
